@@ -230,6 +230,28 @@ def run(ctx):
     ctx.check(all(slots_ok.get('a2neg', [False])), 'R20.4', 'a2-negated', pp.where(0), pp.path, 'a2 is the negated joint-4 offset')
     for fld in ('sign_corrections', 'from', 'to'):
         ctx.check(slots_ok.get(fld) is True, 'R20.4', 'slot/' + fld, pp.where(0), pp.path, '%s[j] must come from the joint named names[j], for j in 0..6' % fld)
+    # 6-DOF detection: dof = 6 exactly when the joint named names[5] - the same name table the slots are read through - exists
+    name_tables = set()
+    for bi, t2 in pp.calls():
+        if cname(callee_name(t2)) == 'HashMap::get':
+            key = strip(pp.op_term(t2['args'][1], (bi, None)))
+            if isinstance(key, tuple) and key[0] == 'idx' and util.loop_source(key[2]) is not None:
+                name_tables.add(strip(key[1]))
+    dof_writes = {}
+    for i, j, st in pp.stmts():
+        lhs = st['lhs']
+        if lhs['local'] == opl[0] and lhs['proj'] and lhs['proj'][0].get('name') == 'dof':
+            v = util.const_val(pp.rv_term(st['rv'], (i, j)))
+            for g, k, sw in pp.guard_terms(i):
+                g = strip(g)
+                if isinstance(g, tuple) and g[0] == 'call' and cname(g[1]) == 'HashMap::contains_key':
+                    key = strip(g[3])
+                    same_table = isinstance(key, tuple) and key[0] == 'idx' and util.const_val(key[2]) == 5 and strip(key[1]) in name_tables
+                    dof_writes[v] = (opw.truth(k), same_table)
+    okd = len(name_tables) == 1 and dof_writes.get(6) == (True, True) and dof_writes.get(5) == (False, True)
+    ctx.check(okd, 'R20.4', 'dof-key', pp.where(0), pp.path,
+              'dof must be 6 exactly when the joint named names[5] exists, names being the table the six slots are read through (explicit names included)',
+              found=str(dof_writes), detail=str(dof_writes))
     # missing joint -> Err via ok_or_else + ?
     ok = any(cname(callee_name(t2)) in ('Option::ok_or_else', 'Option::ok_or') and 'HashMap::get' in show(pp.op_term(t2['args'][0], (bi, None)), maxdepth=3) for bi, t2 in pp.calls())
     ctx.check(ok, 'R20.4', 'missing-joint', pp.where(0), pp.path, 'a missing joint must become an error value')
